@@ -48,8 +48,8 @@ ANCHORS = [
 
 def plan(tier):
     if tier == "quick":
-        return {"shards": 8, "histories": 400, "builtin": 4000, "timeout": 300}
-    return {"shards": 16, "histories": 6000, "builtin": 120000, "timeout": 3000}
+        return {"shards": 8, "histories": 400, "builtin": 4000, "timeout": 900}
+    return {"shards": 16, "histories": 6000, "builtin": 120000, "timeout": 7200}
 
 
 class Checker:
